@@ -338,6 +338,20 @@ def handleSolve (args : List Val) : String := Id.run do
   let c0 : Ctl := ({ scaleIter := si.toNat, scaleEval := se.toNat } : Ctl).setLimits g ev false
   let showOut := fun (c : Ctl) (msg : Option Msg) (iters steps : Nat) (best : V) (bestE : Float) (nlog nstep : Nat) =>
     s!"ok iters={iters} steps={steps} msg={showMsg msg} gens={c.gens} evals={c.evals} nstep={c.nstep} maxiter={showLim c.maxiter} maxfun={showLim c.maxfun} live={pB c.live} best={pFs best} bestE={pF bestE} nlog={nlog} nsteplog={nstep}"
+  if kind == "pw" then
+    let some x0 := (kw? args "x0").bind Val.asFloats? | return "bad-op"
+    let record := ((kw? args "record").bind Val.asBool?).getD true
+    let some lsl := (kw? args "ls").bind Val.asList? |>.bind (·.mapM parseLs) | return "bad-op"
+    let lsArr := lsl.toArray
+    let clip0 : V → V := match su.box with | some b => b.clip0 | none => id
+    let n := x0.length
+    let eye : List V := (List.range n).map fun i => (List.range n).map fun j => if i = j then 1.0 else 0.0
+    let ls : Nat → V → V → PowellS.LsRec Float := fun k p _ => lsArr.getD k { pre := [], y := p, post := [], xi := p.map fun _ => 0.0 }
+    let a := pwAlg o pwCfgF ls cond record (clip0 x0) eye
+    let c0 := { c0 with powell := true }
+    let r := solve a fuel c0 (default : PowellS.Pw Float Float) 0 0
+    let reqs := "(" ++ " ".intercalate (r.st.reqs.map fun q => "(" ++ pFs q.1 ++ " " ++ pFs q.2 ++ ")") ++ ")"
+    return showOut r.ctl r.msg r.iters r.steps r.st.x r.st.fval r.st.log.length r.st.stepLog.length ++ s!" nls={r.st.nls} reqs={reqs}"
   if kind == "nm" then
     let some x0 := (kw? args "x0").bind Val.asFloats? | return "bad-op"
     let some radius := (kw? args "radius").bind Val.asFloat? | return "bad-op"
@@ -352,7 +366,7 @@ def handleSolve (args : List Val) : String := Id.run do
       es.zipIdx.any fun (e, i) => (es.drop (i + 1)).any (· == e)
     let a' : Alg (NM Float Float × Bool) :=
       { step := fun p k => let s' := a.step p.1 k; (s', p.2 || (decide (k ≥ 1) && hasTie s')),
-        nlog := fun p => a.nlog p.1, term := fun p c => a.term p.1 c }
+        nlog := fun p => a.nlog p.1, nrec := fun p => a.nrec p.1, term := fun p c => a.term p.1 c }
     let r := solve a' fuel c0 ((default : NM Float Float), false) 0 0
     let hd := r.st.1.simplex.headD ([], inf)
     return showOut r.ctl r.msg r.iters r.steps hd.1 hd.2 r.st.1.log.length r.st.1.stepLog.length ++ s!" ties={pB r.st.2}"
